@@ -511,6 +511,62 @@ def run_shard(shard):
         if not np.allclose(y0, y1, rtol=1e-12, atol=1e-12):
             v("merge.value", "merge_chains changed the function of a chain with a frozen sub-chain", it)
 
+    def check_composites_keep_wrappers():
+        """Construction history: a part that carries wrappers (a frozen leaf, a reparameterised scale) is handed to every composite
+        constructor; the composite must still contain those wrapper nodes (same arrays), its frozen leaves get zero gradient and
+        calling it equals calling the unwrapped composite."""
+        d_ = 3
+        def part():
+            a = B.Affine(jnp.array([0.5, -1.0, 2.0]), jnp.array([1.0, 2.0, 0.5]))
+            return eqx.tree_at(lambda t: t.loc, a, replace_fn=W.NonTrainable)
+
+        def stacked():
+            a = eqx.filter_vmap(B.Affine)(jnp.array([0.5, -1.0, 2.0]), jnp.array([1.0, 2.0, 0.5]))
+            return eqx.tree_at(lambda t: t.loc, a, replace_fn=W.NonTrainable)
+
+        def stacked_layers():
+            a = eqx.filter_vmap(lambda l: B.Affine(l * jnp.ones(d_), jnp.ones(d_) * 1.5))(jnp.array([0.5, -1.0]))
+            return eqx.tree_at(lambda t: t.loc, a, replace_fn=W.NonTrainable)
+
+        builders = {
+            "Vmap(in_axes=eqx.if_array(0))": (lambda: B.Vmap(stacked(), in_axes=eqx.if_array(0)), (d_,)),
+            "Vmap(axis_size=2)": (lambda: B.Vmap(part(), axis_size=2), (2, d_)),
+            "Scan": (lambda: B.Scan(stacked_layers()), (d_,)),
+            "Chain": (lambda: B.Chain([part(), B.Tanh((d_,))]), (d_,)),
+            "Invert": (lambda: B.Invert(part()), (d_,)),
+            "Concatenate": (lambda: B.Concatenate([part(), B.Exp((2,))]), (5,)),
+            "Stack": (lambda: B.Stack([part(), B.Affine(jnp.zeros(d_), jnp.ones(d_))]), (2, d_)),
+            "Partial": (lambda: B.Partial(part(), jnp.array([0, 2, 4]), (5,)), (5,)),
+            "Reshape": (lambda: B.Reshape(part(), (1, d_)), (1, d_)),
+            "EmbedCondition": (lambda: B.EmbedCondition(B.Chain([part(), B.AdditiveCondition(lambda c: c, (d_,), (d_,))]), lambda c: jnp.tile(c, d_)[:d_], (1,)), (d_,)),
+            "Transformed": (lambda: D.Transformed(D.Normal(jnp.zeros(d_), jnp.ones(d_)), part()), (d_,)),
+            "Transformed(as base)": (lambda: D.Transformed(D.Transformed(D.Normal(jnp.zeros(d_), jnp.ones(d_)), part()), B.Tanh((d_,))), (d_,)),
+        }
+        is_nt = lambda n_: isinstance(n_, W.NonTrainable)
+        for nm, (build, shape) in builders.items():
+            it = {"composite": nm, "origin": "composite"}
+            rec.evals += 1
+            rec.count("composite_wrapper_survival_checks")
+            try:
+                obj = build()
+            except Exception as e:  # noqa: BLE001
+                v(f"exception.{type(e).__name__}", f"constructing {nm} around a part with a frozen leaf raised {type(e).__name__}: {str(e)[:200]}", it)
+                continue
+            nts = [n_ for n_ in jax.tree_util.tree_leaves(obj, is_leaf=is_nt) if is_nt(n_)]
+            if len(nts) != 1:
+                v("composite.wrapper_lost", f"{nm}: built around a part with one NonTrainable leaf, the composite holds {len(nts)} NonTrainable nodes", it)
+                continue
+            cond = jnp.array([0.3]) if nm == "EmbedCondition" else None
+            x = jnp.full(shape, 0.2)
+            f = (lambda m: m.log_prob(x).sum()) if isinstance(obj, D.AbstractDistribution) else (lambda m: m.transform_and_log_det(x, cond)[1] + m.transform(x, cond).sum())
+            g = eqx.filter_grad(f)(obj)
+            gl = [np.asarray(n_.tree) for n_ in jax.tree_util.tree_leaves(g, is_leaf=is_nt) if is_nt(n_)]
+            if not gl or np.any(gl[0] != 0):
+                v("frozen.gradient_nonzero", f"{nm}: the frozen leaf of the wrapped part receives gradient {None if not gl else gl[0].ravel()[:3].tolist()}", it)
+            if not np.allclose(float(f(obj)), float(f(W.unwrap(obj))), rtol=1e-12, atol=1e-12):
+                v("unwrap.method_equivalence", f"{nm}: calling the composite differs from calling the unwrapped composite", it)
+            rec.nontrivial.add(chash("composite", nm))
+
     def check_conditioner_exclusion():
         """(f) frozen leaves are not parameterised by coupling / autoregressive conditioners."""
         for tr_name, tr in {"Affine(loc frozen)": eqx.tree_at(lambda a: a.loc, B.Affine(0.7, 1.3), replace_fn=W.NonTrainable),
@@ -561,6 +617,8 @@ def run_shard(shard):
             check_dist_methods()
         if shard["shard"] % 4 == 1:
             check_conditioner_exclusion()
+        if shard["shard"] % 4 == 2:
+            check_composites_keep_wrappers()
         for i in range(3):
             check_merge_keeps_frozen(i)
         for i in range(shard["train"]):
